@@ -49,24 +49,24 @@ def random_sym(rng, n, cls, shape, lorentz=False):
 
 def cases(tier, sd):
     out = []
-    nrep = 2 if tier == "quick" else 8
+    nrep = 2 if tier == "quick" else 40
     for r in range(nrep):
         for cls in CLASSES:
             for si, shp in enumerate(SHAPES):
                 for dt in (['float64', 'float32'] if si < 2 else ['float64']):
                     out.append(dict(kind='maths', cls=cls, shape=list(shp),
                                     dtype=dt, seed=10000 * sd + 100 * r + si))
-    nk = 4 if tier == "quick" else 16
+    nk = 4 if tier == "quick" else 80
     for r in range(nk):
         for cls in CLASSES[:3]:
             out.append(dict(kind='keys', cls=cls, seed=10000 * sd + r,
                             shape=[[4, 3, 5], [3, 1, 2], [1, 1, 1], [2, 5, 3]][r % 4],
                             components=bool(r % 2)))
     out.append(dict(kind='safe_division', seed=sd))
-    for r in range(2 if tier == "quick" else 6):
+    for r in range(2 if tier == "quick" else 20):
         out.append(dict(kind='curvsym', seed=100 * sd + r,
                         variant=[dict(), dict(shear=0.4)][r % 2]))
-    for r in range(2 if tier == "quick" else 8):
+    for r in range(2 if tier == "quick" else 30):
         out.append(dict(kind='populate', seed=100 * sd + r))
     return out
 
